@@ -43,18 +43,29 @@ structure Obs where
   bgkind : String
   neutral : String
 
+/-- C29-F9: (function, fragment of the panic message) pairs of out-of-domain arguments that panic in library code -/
+def domainPairs : List (String × String) :=
+  [("FROM_BASE", "radix must lie in the range"), ("INVERSE_NORMAL_CDF", "x must be in"), ("INVERSE_BETA_CDF", "x must be in"),
+   ("FORMAT_NUMBER", "Formatting argument out of range"), ("DATE_FORMAT", "Display implementation returned an error")]
+
 /-- signatures of the listed findings (known_findings.json, property C29) -/
-def attribute (o : Obs) : Option String :=
+def attributeTo (o : Obs) : Option String :=
   let up := o.sql.toUpper
   if o.outcome == "panic" && contains o.kind "streaming_k_way_merge" && o.setup.startsWith "spill" && contains up "ORDER BY"
      && (o.neutral == "ok" || o.neutral == "err") then some "C29-F1"
   else if o.outcome == "abort" && o.kind == "stack-overflow" && chainOps up ≥ 2000 then some "C29-F2"
   else if o.outcome == "timeout" && o.phase == "parse" && maxDepth o.sql ≥ 41 && (contains up "CAST(" || contains up "ARRAY[") then some "C29-F3"
-  else if (o.outcome == "ok" || o.outcome == "err") && o.bg > 0 && contains o.bgkind "get_or_assign_perfect_index" && groupKeys up ≥ 9 then some "C29-F4"
   else if o.outcome == "panic" && contains o.kind "hash_join.rs" && contains o.detail "index out of bounds"
      && (contains up "JOIN" || contains up " IN (" || contains up "INTERSECT" || contains up "EXCEPT" || contains up "EXISTS") then some "C29-F5"
-  else if o.outcome == "panic" && contains o.kind "window::frame_range" && contains o.detail "overflow"
-     && (contains up "FOLLOWING" || contains up "PRECEDING") then some "C29-F6"
+  else if o.outcome == "panic" && (contains o.kind "physical::operators::filter::" || contains o.kind "physical::operators::hash_agg")
+     && o.detail.startsWith "attempt to " && contains o.detail "with overflow" then some "C29-F8"
+  else if o.outcome == "panic" && domainPairs.any (fun (f, m) => contains up (f ++ "(") && contains o.detail m) then some "C29-F9"
+  else if o.outcome == "panic" && contains o.detail "TimeDelta" && contains up "DATE_ADD" then some "C29-F10"
+  else if ((o.outcome == "abort" && o.kind == "alloc-failure") || (o.outcome == "timeout" && o.phase == "execute")
+           || (o.outcome == "panic" && contains o.detail "capacity overflow"))
+     && (contains up "REPEAT(" || contains up "LPAD(" || contains up "RPAD(") then some "C29-F11"
+  else if o.outcome == "panic" && contains o.kind "hash_agg" && contains o.detail "Option::unwrap()"
+     && (contains up "MIN(" || contains up "MAX(") then some "C29-F12"
   else none
 
 def strOr (j : Json) (k : String) (d : String := "") : String :=
@@ -84,7 +95,7 @@ def sqlHandler (c i : Json) : Except String Driver.Verdict := do
               ++ (if o.bg > 0 then ["bg-panic"] else [])
   pure { model := Json.mkObj [("allowed", Json.arr #[Json.str "ok", Json.str "err"])], k := fine, oracle := why,
          nt := !(o.outcome == "err" && o.kind == "Parse"), tags := tags,
-         attr := if fine then none else attribute o }
+         attr := if fine then none else attributeTo o }
 
 /-! ### optimizer driver correspondence -/
 
